@@ -61,9 +61,9 @@ AddField ==
   /\ \E f \in GenFields(Top.type) \cup {"__typename"}, al \in AliasChoice, dr \in DirChoice(FieldDirs) :
      \E ar \in ArgChoice(Top.type, f) :
        /\ (IF al = "" THEN 0 ELSE 1) + (IF dr[2] = 0 THEN 0 ELSE 1) + (IF ar = "" THEN 0 ELSE 1) + Decor <= MaxDecor
-       LET t == IF f = "__typename" THEN "String" ELSE Named(TS.types[Top.type].fields[f].ty) IN
+       /\ LET t == IF f = "__typename" THEN "String" ELSE Named(TS.types[Top.type].fields[f].ty)
+          IN open' = IF Composite(t) THEN Append(Bump, [type |-> t, count |-> 0, node |-> Len(doc) + 1]) ELSE Bump
        /\ doc' = Append(doc, Node("field", f, al, "", dr[1], ar, 0))
-       /\ open' = IF Composite(t) THEN Append(Bump, [type |-> t, count |-> 0, node |-> Len(doc) + 1]) ELSE Bump
        /\ ndir' = IF dr[2] = 0 THEN ndir ELSE ndir + 1
        /\ nalias' = IF al = "" THEN nalias ELSE nalias + 1
        /\ nargs' = IF ar = "" THEN nargs ELSE nargs + 1
